@@ -4,6 +4,7 @@ mod clock;
 mod core;
 mod flavour;
 mod l1;
+mod l2;
 mod rng;
 mod val;
 
@@ -48,6 +49,8 @@ fn main() {
                 collect_states: true,
                 stop_on_first: false,
                 max_found: 5,
+                idx_dir: None,
+                oplog: None,
             };
             let out = l1::run_batch(&spec);
             let dt = t0.elapsed().as_secs_f64();
@@ -64,6 +67,48 @@ fn main() {
                 println!("run {} ops {} -> {}: {:?}\n  cfg {:?}\n  {}", f.run_index, f.ops.len(), ops.len(), l1::render_ops(def, &ops), cfg, first.msg);
             }
         }
+        "l2" => {
+            let name = arg_val(&args, "--scen").unwrap_or("S-mutex".into());
+            let runs: u64 = arg_val(&args, "--runs").and_then(|s| s.parse().ok()).unwrap_or(20_000);
+            let seed: u64 = arg_val(&args, "--seed").and_then(|s| s.parse().ok()).unwrap_or(1);
+            let def = l2::scen_by_name(&name).expect("unknown scenario");
+            let t0 = Instant::now();
+            let mut nfail = 0;
+            let mut stats = core::Stats::default();
+            let mut steps = 0u64;
+            let mut simt = 0u64;
+            let mut nontrivial = std::collections::HashSet::new();
+            for r in 0..runs {
+                let mut rng = rng::Rng::for_run(seed, def.name, r);
+                let mut cfg = (def.draw_cfg)(&mut rng);
+                for (i, a) in args.iter().enumerate() {
+                    if a == "--set" {
+                        if let Some((k, v)) = args.get(i + 1).and_then(|kv| kv.split_once('=')) {
+                            cfg.insert(k.to_string(), v.parse().unwrap());
+                        }
+                    }
+                }
+                let out = l2::run(def, &cfg, l2::Chooser::generate(rng));
+                stats.merge(&out.stats);
+                steps += out.steps;
+                simt += out.sim_time_ms;
+                if out.nontrivial {
+                    nontrivial.insert(out.fp);
+                }
+                if !out.fails.is_empty() {
+                    nfail += 1;
+                    if nfail <= 3 {
+                        let f = &out.fails[0];
+                        let t = l2::minimise(def, &cfg, &out.tape, &f.prop, &f.oracle, 300);
+                        println!("run {} FAIL {}:{} {}\n  cfg {:?}\n  tape {} -> {}: {:?}", r, f.prop, f.oracle, f.msg, cfg, out.tape.len(), t.len(), t);
+                    }
+                }
+            }
+            let dt = t0.elapsed().as_secs_f64();
+            println!("scen={} runs={} fails={} wall={:.2}s ({:.1} us/run) steps/run={:.1} sim_ms/run={:.1} nontrivial_distinct={}", name, runs, nfail, dt, dt * 1e6 / runs as f64, steps as f64 / runs as f64, simt as f64 / runs as f64, nontrivial.len());
+            println!("faults: {:?}", stats.faults);
+            println!("probes: {:?}", stats.probes);
+        }
         "check" => {
             let prop = args.get(2).cloned().unwrap_or_default();
             let tier = arg_val(&args, "--tier").or_else(|| std::env::var("VERIF_TIER").ok()).unwrap_or("quick".into());
@@ -71,6 +116,18 @@ fn main() {
             let threads: usize = arg_val(&args, "--threads").and_then(|s| s.parse().ok()).unwrap_or_else(|| std::thread::available_parallelism().map(|n| n.get()).unwrap_or(4).min(16));
             let root = arg_val(&args, "--root").unwrap_or("/verif".into());
             std::process::exit(check::cmd_check(std::path::Path::new(&root), &prop, &tier, seed, threads));
+        }
+        "worker" => {
+            let spec = args.get(2).cloned().unwrap_or_default();
+            std::process::exit(check::cmd_worker(&spec));
+        }
+        "replay-inproc" => {
+            let path = args.get(2).cloned().unwrap_or_default();
+            std::process::exit(check::cmd_replay_inproc(&path));
+        }
+        "minimise-inproc" => {
+            let path = args.get(2).cloned().unwrap_or_default();
+            std::process::exit(check::cmd_minimise_inproc(&path));
         }
         "replay" => {
             let path = args.get(2).cloned().unwrap_or_default();
